@@ -38,8 +38,19 @@ class Block:
         self.lines = []
 
 
+def _nows(x):
+    return re.sub(r"\s+", "", x)
+
+
 class FnSpec:
     def __init__(self, path, lineno):
+        # `@fn Type::method impl Trait<Args>` selects the method of that trait impl (a type may implement
+        # PartialEq<X> for several X); the selector also names the twin and the obligation ids
+        self.impl_sel = None
+        m = re.match(r"^(\S+)\s+impl\s+(.+)$", path)
+        if m:
+            path, self.impl_sel = m.group(1), m.group(2).strip()
+        self.suffix = ("_for_" + re.sub(r"[^A-Za-z0-9]+", "_", self.impl_sel).strip("_")) if self.impl_sel else ""
         self.path, self.lineno = path, lineno
         self.props = []
         self.blocks = []
@@ -84,7 +95,7 @@ def parse_vspec(text, origin="<vspec>"):
             elif d == "@wrap-from":
                 cur_file.wrap = True
                 cur_file.wrap_from = arg.strip()[1:-1]
-            elif d in ("@top", "@bottom", "@file-replace", "@pre-replace", "@pre-replace-code", "@require"):
+            elif d in ("@top", "@bottom", "@file-replace", "@pre-replace", "@pre-replace-code", "@require", "@derived"):
                 cur_fn = None
                 cur_block = Block(d[1:], arg, ln); cur_file.blocks.append(cur_block)
             elif d == "@fn":
@@ -95,8 +106,10 @@ def parse_vspec(text, origin="<vspec>"):
                 b = Block(d[1:], arg, ln); cur_fn.blocks.append(b)
             elif d == "@match-consts":
                 cur_fn.blocks.append(Block("match-consts", arg, ln))
-            elif d in ("@spec", "@loop", "@at", "@closure", "@replace", "@replace-all"):
+            elif d in ("@spec", "@loop", "@at", "@closure", "@replace", "@replace-all", "@spec-impl"):
                 cur_block = Block(d[1:], arg, ln); cur_fn.blocks.append(cur_block)
+            elif d == "@eq-method":
+                cur_fn.blocks.append(Block("eq-method", arg, ln))
             elif d == "@break-value-loops":
                 cur_fn.blocks.append(Block("bvl", "", ln))
             elif d == "@desugar-for":
@@ -174,13 +187,17 @@ def _mark_clauses(lines, base_id):
     return out, ids
 
 
-def _find_fn(fns, path, relfile):
+def _find_fn(fns, path, relfile, impl_sel=None):
     want = path.split("::")
     cands = []
     for f in fns:
         full = f.container + [f.name]
         if "tests" in f.container:
             continue
+        if impl_sel is not None:
+            tf = _nows(getattr(f, "trait_full", None) or "")
+            if not (tf == _nows(impl_sel) or tf.endswith("::" + _nows(impl_sel))):
+                continue
         if full[-len(want):] == want:
             cands.append(f)
     if len(cands) != 1:
@@ -241,8 +258,8 @@ def annotate_file(src, fspec, relfile):
                 repls.append((m.start(), m.end(), m.expand("\n".join(_strip_blank(b.lines)))))
 
     def _one_fn(fs):
-            f = _find_fn(fns, fs.path, relfile)
-            base = "%s::%s" % (short, "::".join(f.container + [f.name]))
+            f = _find_fn(fns, fs.path, relfile, fs.impl_sel)
+            base = "%s::%s" % (short, "::".join(f.container + [f.name + fs.suffix]))
             fn_props[base] = fs.props
             item_s = toks[f.item_start].start
             item_e = toks[f.body_close].end if f.body_open is not None else toks[f.semi].end
@@ -456,6 +473,52 @@ def annotate_file(src, fspec, relfile):
                             break
                     if not found:
                         raise AnchorLost("%s: `%s`: no `match` on /%s/" % (relfile, fs.path, rx.pattern))
+                elif b.kind == "spec-impl":
+                    pass
+                elif b.kind == "eq-method":
+                    # R22 (general form): `A == B` -> `(A).eq(&(B))`, the method call the operator stands for (Verus reads
+                    # `==` on opaque external types as structural equality; the method has a contract). Operands are
+                    # found on the token level. `except /re/`: comparisons whose operand text matches are left alone
+                    # (bool / integer comparisons, which Verus understands natively).
+                    # `refs`: both operands are references (&T == &T goes through std's forwarding impl for references to
+                    # T::eq): `(A).eq(B)`
+                    refs_ = b.arg.strip().startswith("refs")
+                    ex_ = re.search(r"except /(.*)/$", b.arg.strip())
+                    ex_rx = re.compile(ex_.group(1)) if ex_ else None
+                    stop_l = {"{", "(", "[", ";", ",", "&&", "||", "=", "=>", "|", "return", "if", "while", "else", "match"}
+                    stop_r = {"&&", "||", ";", ",", ")", "]", "}", "{", "=>"}
+                    n_done = 0
+                    for q in range(f.body_open + 1, f.body_close):
+                        if not (toks[q].kind == "p" and toks[q].text == "=="):
+                            continue
+                        l = q - 1
+                        while l > f.body_open:
+                            t_ = toks[l]
+                            if t_.kind == "p" and t_.text in ")]}":
+                                l = t_.match - 1
+                                continue
+                            if t_.text in stop_l and t_.kind in ("p", "id"):
+                                break
+                            l -= 1
+                        r = q + 1
+                        while r < f.body_close:
+                            t_ = toks[r]
+                            if t_.kind == "p" and t_.text in "([":
+                                r = t_.match + 1
+                                continue
+                            if t_.kind == "p" and t_.text in stop_r:
+                                break
+                            r += 1
+                        a_s, a_e = toks[l + 1].start, toks[q - 1].end
+                        b_s, b_e = toks[q + 1].start, toks[r - 1].end
+                        if ex_rx and (ex_rx.search(src[a_s:a_e]) or ex_rx.search(src[b_s:b_e])):
+                            continue
+                        ins(a_s, "(", order=8)
+                        repls.append((toks[q].start, toks[q].end, ").eq((" if refs_ else ").eq(&("))
+                        ins(b_e, "))", order=-8)
+                        n_done += 1
+                    if not n_done and "optional" not in b.arg:
+                        raise AnchorLost("%s: `%s`: no `==` comparison found for rewrite R22" % (relfile, fs.path))
                 elif b.kind == "replace-all":
                     rx = re.compile(b.arg.strip()[1:-1])
                     body = src[item_s:item_e]
@@ -517,6 +580,13 @@ def annotate_file(src, fspec, relfile):
 
     top = "\n".join(l for b in fspec.blocks if b.kind == "top" for l in b.lines)
     bottom = "\n".join(l for b in fspec.blocks if b.kind == "bottom" for l in b.lines)
+    for b in fspec.blocks:
+        if b.kind == "derived":
+            try:
+                bottom += "\n" + derived_spec(src, b.arg, relfile)
+            except AnchorLost as e:
+                a_ = b.arg.split()
+                lost.append({'fn': '%s::%s(derive %s)' % (short, a_[0], a_[1]), 'props': a_[2:], 'why': str(e), 'twin': False})
 
     # apply
     ops = [(p, p, o, t) for (p, o, t) in edits] + [(s, e, 0, t) for (s, e, t) in repls]
@@ -535,14 +605,14 @@ def annotate_file(src, fspec, relfile):
         twin_texts = []
         drops = []
         for fs in twins:
-            f2 = _find_fn(fns2, fs.path, relfile)
+            f2 = _find_fn(fns2, fs.path, relfile, fs.impl_sel)
             if fs.twin is not None:
                 tw = make_twin(out, toks2, f2, fs)
                 if fs.split:
                     # case split: one variant per marked branch; in variant k every OTHER marked branch starts
                     # with assume(false) (it is verified in its own variant), so each Verus query covers
                     # the common code + one branch. Unmarked code is verified in every variant.
-                    name = "twin_" + "_".join(f2.container + [f2.name])
+                    name = "twin_" + "_".join(f2.container + [f2.name]) + fs.suffix
                     poss = []
                     for rx in fs.split:
                         ms = list(re.finditer(rx, tw))
@@ -558,7 +628,14 @@ def annotate_file(src, fspec, relfile):
                         twin_texts.append(v)
                 else:
                     twin_texts.append(tw)
-                if not fspec.wrap:
+                si_ = [b for b in fs.blocks if b.kind == "spec-impl"]
+                if not fspec.wrap and si_:
+                    # comparison method of a facade type: its contract is given to Verus as the spec function of vstd's
+                    # PartialEqSpec / PartialOrdSpec / OrdSpec extension traits, so that `==`, `<`, `.cmp()` on the type -
+                    # also inside Option<&T> and through references - mean that spec function; the twin proves
+                    # `result == self.<spec fn>(other)` for the method's body
+                    twin_texts.append(_spec_impl(si_[0], f2, fs))
+                elif not fspec.wrap:
                     # facade method: other twins may call it; its contract (proved on the twin, same body) is
                     # attached to the method itself as an assumed specification
                     tt, tf = rustlex.index_functions(tw)
@@ -566,13 +643,19 @@ def annotate_file(src, fspec, relfile):
                     head = tw[tt[tfn.fn_tok].start:tt[tfn.body_open].start].rstrip()
                     if head.endswith(","):
                         head = head[:-1]
-                    tname = "twin_" + "_".join(f2.container + [f2.name])
+                    tname = "twin_" + "_".join(f2.container + [f2.name]) + fs.suffix
                     target = "crate::" + _module_path(relfile) + "::" + "::".join(f2.container + [f2.name])
+                    if getattr(f2, "trait_full", None):
+                        # method of a trait impl: `<Type as Trait<Args>>::method` (trait and arguments as written in
+                        # the impl header; they resolve in the file's own scope, where this text is appended)
+                        target = "<crate::%s::%s as %s>::%s" % (_module_path(relfile), "::".join(f2.container), f2.trait_full, f2.name)
                     gen_end = head.index("(")
                     gens = head[len("fn " + tname):gen_end].strip()
                     gens = "" if gens == "<>" else gens
                     head2 = "pub assume_specification%s [%s] %s" % (gens, target, head[gen_end:])
                     head2 = re.sub(r"/\*@V:[^*]*\*/", "", head2)
+                    if getattr(f2, "trait_full", None):
+                        head2 = _requires_to_implication(head2)
                     twin_texts.append("// contract of the facade method = contract proved on its twin\n" + head2 + ";")
             if fs.drop_body:
                 drops.append((toks2[f2.body_open].start, toks2[f2.body_close].end))
@@ -596,6 +679,107 @@ def annotate_file(src, fspec, relfile):
     if fspec.wrap:
         out = _bytestr_to_array(out, r"^verus! \{")
     return out, obligations, fn_props, lost
+
+
+def _spec_impl(b, f, fs):
+    kind = b.arg.strip()
+    body = "\n".join(_strip_blank(b.lines))
+    tf = f.trait_full or ""
+    m = re.search(r"<(.*)>\s*$", tf)
+    rhs = m.group(1).strip() if m else None
+    ty = f.container[-1]
+    gens = ("<%s>" % fs.twin) if fs.twin else ""
+    targ = ("<%s>" % rhs) if rhs else ""
+    other_ty = rhs if rhs else ty
+    hdr = "// contract of the facade method (proved on its twin), as the spec function Verus uses for the operator\n"
+    if kind == "eq":
+        return hdr + ("impl%s vstd::std_specs::cmp::PartialEqSpecImpl%s for %s {\n    open spec fn obeys_eq_spec() -> bool { true }\n"
+                      "    open spec fn eq_spec(&self, other: &%s) -> bool {\n%s\n    }\n}\n") % (gens, targ, ty, other_ty, body)
+    if kind == "partial_cmp":
+        return hdr + ("impl%s vstd::std_specs::cmp::PartialOrdSpecImpl%s for %s {\n    open spec fn obeys_partial_cmp_spec() -> bool { true }\n"
+                      "    open spec fn partial_cmp_spec(&self, other: &%s) -> Option<std::cmp::Ordering> {\n%s\n    }\n}\n") % (gens, targ, ty, other_ty, body)
+    if kind == "cmp":
+        return hdr + ("impl%s vstd::std_specs::cmp::OrdSpecImpl for %s {\n    open spec fn obeys_cmp_spec() -> bool { true }\n"
+                      "    open spec fn cmp_spec(&self, other: &%s) -> std::cmp::Ordering {\n%s\n    }\n}\n") % (gens, ty, other_ty, body)
+    raise ValueError("@spec-impl: unknown kind " + kind)
+
+
+def _split_top(text):
+    """split at commas of bracket depth 0"""
+    out, depth, cur = [], 0, ""
+    for ch in text:
+        if ch in "([{":
+            depth += 1
+        elif ch in ")]}":
+            depth -= 1
+        if ch == "," and depth == 0:
+            out.append(cur); cur = ""
+        else:
+            cur += ch
+    if cur.strip():
+        out.append(cur)
+    return [x.strip() for x in out if x.strip()]
+
+
+def _requires_to_implication(head):
+    """a trait-impl method cannot carry `requires`: `requires P.. ensures E..` becomes `ensures (P..) ==> E..`
+    (the twin, a free function, is proved under `requires P`)"""
+    m = re.search(r"\brequires\b(.*?)\bensures\b(.*)$", head, re.S)
+    if not m:
+        return head
+    pre = _split_top(m.group(1))
+    post = _split_top(m.group(2))
+    cond = " && ".join("(%s)" % x for x in pre)
+    return head[:m.start()] + "ensures\n" + ",\n".join("    (%s) ==> (%s)" % (cond, e) for e in post)
+
+
+_DERIVE_TRAIT = {"eq": "PartialEq", "cmp": "Ord", "hash": "Hash"}
+
+
+def derived_spec(src, arg, relfile):
+    """`@derived Struct eq|cmp|hash <props>`: the ASSUMED meaning of a derive on a struct of (optional) references to
+    component values, generated from the struct's CURRENT definition: PartialEq = field-wise conjunction, Ord =
+    lexicographic in field order (None < Some), Hash = the fields' feeds in order (an Option feeds its discriminant
+    first). The per-type relations eqv_T / ordv_T / hfeed_T are those of contracts/13_eq.rs; each component type's own
+    hand-written impl is proved against the same relation on its twin."""
+    a_ = arg.split()
+    name, what = a_[0], a_[1]
+    m = re.search(r"#\[derive\(([^)]*)\)\]\s*pub struct %s\s*<'a>\s*\{([^}]*)\}" % re.escape(name), src)
+    if not m:
+        raise AnchorLost("%s: struct %s with a derive attribute not found" % (relfile, name))
+    derives = [x.strip() for x in m.group(1).split(",")]
+    if _DERIVE_TRAIT[what] not in derives:
+        raise AnchorLost("%s: struct %s does not derive %s any more" % (relfile, name, _DERIVE_TRAIT[what]))
+    fields = []
+    for line in m.group(2).split("\n"):
+        line = re.sub(r"//.*$", "", line).strip()
+        if not line:
+            continue
+        fm = re.match(r"^pub\s+(\w+)\s*:\s*(Option\s*<\s*&'a\s+(\w+)\s*>|&'a\s+(\w+))\s*,?$", line)
+        if not fm:
+            raise AnchorLost("%s: struct %s: field `%s` is not an (optional) reference to a component" % (relfile, name, line))
+        fields.append((fm.group(1), fm.group(3) or fm.group(4), fm.group(3) is not None))
+    ty = "%s<'a>" % name
+    if what == "eq":
+        terms = [("oeqv_%s(opt_text(self.%s), opt_text(other.%s))" if opt else "eqv_%s(bytes_of(self.%s), bytes_of(other.%s))") % (t, f, f) for f, t, opt in fields]
+        return ("// derive(PartialEq) on %s: field-wise conjunction. ASSUMED (meaning of the derive), generated from the struct's field list\n"
+                "impl<'a> vstd::std_specs::cmp::PartialEqSpecImpl for %s {\n    open spec fn obeys_eq_spec() -> bool { true }\n"
+                "    open spec fn eq_spec(&self, other: &%s) -> bool { %s }\n}\n") % (name, ty, ty, " && ".join(terms))
+    if what == "cmp":
+        expr = "std::cmp::Ordering::Equal"
+        for f, t, opt in reversed(fields):
+            term = ("oordv_%s(opt_text(self.%s), opt_text(other.%s))" if opt else "ordv_%s(bytes_of(self.%s), bytes_of(other.%s))") % (t, f, f)
+            expr = "ord_then(%s, %s)" % (term, expr)
+        return ("// derive(PartialOrd, Ord) on %s: lexicographic in field order. ASSUMED (meaning of the derive), generated from the struct's field list\n"
+                "impl<'a> vstd::std_specs::cmp::PartialOrdSpecImpl for %s {\n    open spec fn obeys_partial_cmp_spec() -> bool { true }\n"
+                "    open spec fn partial_cmp_spec(&self, other: &%s) -> Option<std::cmp::Ordering> { Some(%s) }\n}\n"
+                "impl<'a> vstd::std_specs::cmp::OrdSpecImpl for %s {\n    open spec fn obeys_cmp_spec() -> bool { true }\n"
+                "    open spec fn cmp_spec(&self, other: &%s) -> std::cmp::Ordering { %s }\n}\n") % (name, ty, ty, expr, ty, ty, expr)
+    if what == "hash":
+        terms = [("ohfeed_%s(opt_text(a.%s))" if opt else "hfeed_%s(bytes_of(a.%s))") % (t, f) for f, t, opt in fields]
+        return ("// derive(Hash) on %s: the fields' feeds in order. ASSUMED (meaning of the derive), generated from the struct's field list\n"
+                "pub assume_specification<'a, H: std::hash::Hasher> [<%s as std::hash::Hash>::hash::<H>] (a: &%s, state: &mut H)\n    ensures hfed(final(state)) == hfed(old(state)) + %s;\n") % (name, ty, ty, " + ".join(terms))
+    raise ValueError("@derived: unknown kind " + what)
 
 
 def _bytestr_to_array(text, wrap_from):
@@ -641,7 +825,7 @@ def make_twin(text, toks, f, fs):
     Verus rejects default methods that call generic functions bounded by their own trait (trait
     cycle check); the method itself is therefore given its contract as an assumption
     (external_body) and the SAME contract is proved on this twin, generated from the current text."""
-    name = "twin_" + "_".join(f.container + [f.name])
+    name = "twin_" + "_".join(f.container + [f.name]) + getattr(fs, "suffix", "")
     # own generics
     k = f.fn_tok + 2
     own = ""
